@@ -65,6 +65,11 @@ Inductive wake :=
 | WkStable
 | WkJoin (k : nat).
 
+(* model-only bookkeeping that travels with a pending resumption (never inspected by the scheduler):
+   time at which the wait began, insertion id that was assigned, and for a fired signal watch the snapshot
+   and the values that were found different *)
+Record ghost := mk_ghost { g_t0 : Q; g_id : N; g_refs : list val; g_cur : list val }.
+
 Inductive step :=
 | SWaitClk (c : clk) (ph : phase)
 | SWaitFor (q : Q)
@@ -100,7 +105,7 @@ Record event := mk_event {
   e_pid : nat;          (* SimProcResumeEvt::handle *)
   e_id : N;             (* SimProcResumeEvt::insertionId *)
   e_why : wake;         (* model only: what the handle was waiting for *)
-  e_t0 : Q              (* model only: simulation time at which the handle suspended *)
+  e_g : ghost           (* model only *)
 }.
 
 Definition clock_less (a b : Q) : bool := Z.ltb (Qnum a * Zpos (Qden b)) (Qnum b * Zpos (Qden a)).
@@ -170,8 +175,8 @@ Definition circ_read (s : sig) (c : circ) : val :=
 
 Inductive action :=
 | AStart | AEnd
-| ASusp (w : wake)
-| AWake (w : wake) (t0 : Q)        (* t0: time at which the wait began (not printed) *)
+| ASusp (w : wake) (id : N)        (* id: insertion id consumed by this suspension (not printed; 0 for WaitStable / join) *)
+| AWake (w : wake) (g : ghost)     (* g: not printed *)
 | ARead (s : sig) (v : val)
 | AWatch (vs : list val)           (* values of the watched signals, logged after ASusp/AWake of a WaitChange *)
 | AWrite (p : pinid) (v : N)
@@ -194,11 +199,12 @@ Inductive entry :=
 Record awaiter := mk_awaiter { aw_id : N; aw_phase : phase; aw_pid : nat; aw_why : wake; aw_t0 : Q }.
 Record watch := mk_watch { w_pid : nat; w_mask : list sig; w_refs : list val; w_id : N; w_t0 : Q }.
 Record proc := mk_proc { p_script : script; p_fiber : bool; p_done : bool; p_joiners : list (nat * nat * Q) }.
+Definition ghost0 (t0 : Q) : ghost := mk_ghost t0 0 [] [].
 (* a joiner: (pid, index it joined on, time it began to wait) *)
 
 Inductive task :=
 | TStart (pid : nat)                          (* SimulationCoroutineHandler::start(coroutine, false) *)
-| TWake (pid : nat) (w : wake) (t0 : Q)       (* readyToResume(handle) of a suspended coroutine *)
+| TWake (pid : nat) (w : wake) (g : ghost)    (* readyToResume(handle) of a suspended coroutine *)
 | THop (pid : nat) (n : nat).                 (* fiber: n more wrapper coroutines pass before the next step runs *)
 
 Inductive frame :=
@@ -282,6 +288,9 @@ Definition set_oof (s : state) : state :=
   mk_state (s_now s) (s_phase s) (s_mt s) (s_queue s) (s_await_a s) (s_await_b s) (s_watches s) (s_commitq s) (s_nextid s)
     (s_readonly s) (s_ready s) (s_procs s) (s_forked s) (s_circ s) (s_log s) (s_err s) (s_tb s) (s_ties s) true.
 
+(* an exception left the simulator, or the model ran out of fuel: nothing runs any more *)
+Definition halted (s : state) : bool := s_err s || s_oof s.
+
 (* after an exception has left the simulator nothing is logged any more *)
 Definition add_log (e : entry) (s : state) : state :=
   if s_err s then s else set_log (e :: s_log s) s.
@@ -312,15 +321,15 @@ Definition reevaluate (s : state) : state := add_log LReeval (set_circ (circ_ree
 
 Definition fresh_id (s : state) : N * state := (s_nextid s, set_nextid (N.succ (s_nextid s)) s).
 
-Definition resume_event (t : Q) (mt : N) (ph : phase) (pid : nat) (id : N) (w : wake) (t0 : Q) : event :=
-  mk_event SimProcResume t mt ph CA false pid id w t0.
+Definition resume_event (t : Q) (mt : N) (ph : phase) (pid : nat) (id : N) (w : wake) (g : ghost) : event :=
+  mk_event SimProcResume t mt ph CA false pid id w g.
 
 (* simulationProcessSuspending(handle, WaitFor&) *)
 Definition suspend_waitfor (pid : nat) (q : Q) (s : state) : state :=
   let t := tadd (s_now s) q in
   let mt := if Qeq_bool t (s_now s) && phase_eqb (s_phase s) AFTER then N.succ (s_mt s) else 0%N in
   let (id, s1) := fresh_id s in
-  push_event (resume_event t mt AFTER pid id (WkFor q) (s_now s)) s1.
+  push_event (resume_event t mt AFTER pid id (WkFor q) (mk_ghost (s_now s) id [] [])) s1.
 
 (* simulationProcessSuspending(handle, WaitClock&): both clocks have clocked nodes, so the clock is always
    part of the simulation (the "clock not part of the simulation" branch is not reachable in this circuit) *)
@@ -344,8 +353,8 @@ Definition suspend_waitstable (pid : nat) (s : state) : state :=
 
 Definition read_mask (m : list sig) (s : state) : list val := map (fun x => circ_read x (s_circ s)) m.
 Definition log_watch (pid : nat) (m : list sig) (s : state) : state := log_proc pid (AWatch (read_mask m s)) s.
-Definition log_wake (pid : nat) (w : wake) (t0 : Q) (s : state) : state :=
-  let s1 := log_proc pid (AWake w t0) s in
+Definition log_wake (pid : nat) (w : wake) (g : ghost) (s : state) : state :=
+  let s1 := log_proc pid (AWake w g) s in
   match w with WkChange m => log_watch pid m s1 | _ => s1 end.
 
 (* coroutine reached final_suspend (or the fiber thread left its body): FinalSuspendAwaiter enqueues every
@@ -354,7 +363,7 @@ Definition finish_proc (pid : nat) (s : state) : state :=
   let s1 := log_proc pid AEnd s in
   let js := p_joiners (get_proc pid s1) in
   let s2 := upd_proc pid with_done s1 in
-  fold_left (fun st j => match j with (jp, k, t0) => enqueue (TWake jp (WkJoin k) t0) st end) js s2.
+  fold_left (fun st j => match j with (jp, k, t0) => enqueue (TWake jp (WkJoin k) (ghost0 t0)) st end) js s2.
 
 (* what happens once the step coroutine of a FIBER has finished: the wrapper resumes the fiber thread, which
    either leaves its body (script exhausted) or hands the next step to the ready queue and suspends.
@@ -401,10 +410,10 @@ Definition step_frame (cfg : config) (f : frame) (s : state) : list frame * stat
           then continue_ (log_proc pid (AJoinDone k) s0)        (* Join::await_ready *)
           else ([], upd_proc cp (add_joiner (pid, k, s_now s0)) (log_proc pid (AJoinWait k) s0))
         end
-      | SWaitClk c ph => ([], suspend_waitclk cfg pid c ph (log_proc pid (ASusp (WkClk c ph)) s0))
-      | SWaitFor q => ([], suspend_waitfor pid q (log_proc pid (ASusp (WkFor q)) s0))
-      | SWaitChange m => ([], suspend_waitchange pid m (log_watch pid m (log_proc pid (ASusp (WkChange m)) s0)))
-      | SWaitStable => ([], suspend_waitstable pid (log_proc pid (ASusp WkStable) s0))
+      | SWaitClk c ph => ([], suspend_waitclk cfg pid c ph (log_proc pid (ASusp (WkClk c ph) (s_nextid s0)) s0))
+      | SWaitFor q => ([], suspend_waitfor pid q (log_proc pid (ASusp (WkFor q) (s_nextid s0)) s0))
+      | SWaitChange m => ([], suspend_waitchange pid m (log_watch pid m (log_proc pid (ASusp (WkChange m) (s_nextid s0)) s0)))
+      | SWaitStable => ([], suspend_waitstable pid (log_proc pid (ASusp WkStable 0) s0))
       end
     end
   end.
@@ -413,7 +422,7 @@ Fixpoint run_stack (cfg : config) (fuel : nat) (stk : list frame) (s : state) : 
   match stk with
   | [] => s
   | f :: rest =>
-    if s_err s then s else
+    if halted s then s else
     match fuel with
     | O => set_oof s
     | S n => let (fs, s') := step_frame cfg f s in run_stack cfg n (fs ++ rest) s'
@@ -424,8 +433,8 @@ Fixpoint run_stack (cfg : config) (fuel : nat) (stk : list frame) (s : state) : 
 Definition exec_task (cfg : config) (fuel : nat) (t : task) (s : state) : state :=
   match t with
   | TStart pid => run_stack cfg fuel [FStart pid] s
-  | TWake pid w t0 =>
-    let s1 := log_wake pid w t0 s in
+  | TWake pid w g =>
+    let s1 := log_wake pid w g s in
     if p_fiber (get_proc pid s1)
     then enqueue (THop pid 1) s1     (* the step coroutine finishes -> its wrapper is enqueued *)
     else run_stack cfg fuel [FRun pid] s1
@@ -442,7 +451,7 @@ Fixpoint run_ready (cfg : config) (fuel : nat) (s : state) : state :=
   match s_ready s with
   | [] => s
   | t :: rest =>
-    if s_err s then s else
+    if halted s then s else
     match fuel with
     | O => set_oof s
     | S n => run_ready cfg n (exec_task cfg (S n) t (set_ready rest s))
@@ -491,16 +500,16 @@ Definition handle_trigger (cfg : config) (e : event) (s : state) : state :=
     if e_rising e then
       let s' := fold_left (fun st a =>
                    push_event (mk_event SimProcResume (e_time e) (e_mt e) (aw_phase a) k (e_rising e)
-                                        (aw_pid a) (aw_id a) (aw_why a) (aw_t0 a)) st)
+                                        (aw_pid a) (aw_id a) (aw_why a) (mk_ghost (aw_t0 a) (aw_id a) [] [])) st)
                  (get_await k s0) s0 in
       set_await k [] s'
     else s0 in
   (* the value change itself, after the processes that were just scheduled for BEFORE / DURING *)
   let s2 := push_event (mk_event ClockValueChange (e_time e) (e_mt e) (e_phase e) k (e_rising e)
-                                 (e_pid e) (e_id e) (e_why e) (e_t0 e)) s1 in
+                                 (e_pid e) (e_id e) (e_why e) (e_g e)) s1 in
   (* re-issue the next clock flank *)
   push_event (mk_event ClockPinTrigger (tadd (e_time e) (clk_half cfg k)) 0 (e_phase e) k (negb (e_rising e))
-                       (e_pid e) (e_id e) (e_why e) (e_t0 e)) s2.
+                       (e_pid e) (e_id e) (e_why e) (e_g e)) s2.
 
 Definition handle_value_change (cfg : config) (e : event) (s : state) : state :=
   let k := e_pin e in
@@ -512,7 +521,7 @@ Definition handle_event (cfg : config) (fuel : nat) (e : event) (s : state) : st
   | ClockPinTrigger => handle_trigger cfg e s
   | ClockValueChange => handle_value_change cfg e s
   | ResetValueChange => s                                   (* no resets in this circuit *)
-  | SimProcResume => resume_now cfg fuel (TWake (e_pid e) (e_why e) (e_t0 e)) s
+  | SimProcResume => resume_now cfg fuel (TWake (e_pid e) (e_why e) (e_g e)) s
   end.
 
 Definition top_matches (time_only : bool) (with_mt : bool) (s : state) : bool :=
@@ -525,7 +534,7 @@ Definition top_matches (time_only : bool) (with_mt : bool) (s : state) : bool :=
 
 (* ReferenceSimulator::advanceMicroTick *)
 Fixpoint advance_micro_tick (cfg : config) (fuel : nat) (s : state) : state :=
-  if s_err s then s else
+  if halted s then s else
   if top_matches false true s then
     match fuel with
     | O => set_oof s
@@ -546,14 +555,16 @@ Definition check_watches (s : state) : state :=
   let kept := filter (fun w => negb (watch_changed (s_circ s) w)) (s_watches s) in
   let mt := if phase_eqb (s_phase s) AFTER then N.succ (s_mt s) else 0%N in
   let s1 := fold_left (fun st w =>
-              push_event (resume_event (s_now s) mt AFTER (w_pid w) (w_id w) (WkChange (w_mask w)) (w_t0 w))
-                (add_log (LFire (w_pid w) (w_refs w) (map (fun x => circ_read x (s_circ s)) (w_mask w))) st))
+              let cur := map (fun x => circ_read x (s_circ s)) (w_mask w) in
+              push_event (resume_event (s_now s) mt AFTER (w_pid w) (w_id w) (WkChange (w_mask w))
+                                       (mk_ghost (w_t0 w) (w_id w) (w_refs w) cur))
+                (add_log (LFire (w_pid w) (w_refs w) cur) st))
             fired s in
   set_watches kept s1.
 
 (* the inner while loop of handleCurrentTimeStep for one timing phase *)
 Fixpoint phase_loop (cfg : config) (fuel : nat) (s : state) : state :=
-  if s_err s then s else
+  if halted s then s else
   if top_matches false false s then
     match fuel with
     | O => set_oof s
@@ -574,14 +585,14 @@ Definition commit_state (cfg : config) (fuel : nat) (s : state) : state :=
   let s1 := set_readonly true s in
   let waiting := s_commitq s1 in
   let s2 := set_commitq [] s1 in
-  let s3 := fold_left (fun st p => resume_now cfg fuel (TWake (fst p) WkStable (snd p)) st) waiting s2 in
+  let s3 := fold_left (fun st p => resume_now cfg fuel (TWake (fst p) WkStable (ghost0 (snd p))) st) waiting s2 in
   let c := s_circ s3 in
   let s4 := add_log (LCommit (s_now s3) (r_a c) (r_a2 c) (r_b c) (c_out c)) s3 in
   set_readonly false s4.
 
 (* ReferenceSimulator::handleCurrentTimeStep *)
 Fixpoint time_step_loop (cfg : config) (fuel : nat) (s : state) : state :=
-  if s_err s then s else
+  if halted s then s else
   if top_matches true false s then
     match fuel with
     | O => set_oof s
@@ -595,7 +606,7 @@ Fixpoint time_step_loop (cfg : config) (fuel : nat) (s : state) : state :=
 
 Definition handle_time_step (cfg : config) (fuel : nat) (s : state) : state :=
   let s1 := time_step_loop cfg fuel s in
-  if s_err s1 then s1 else commit_state cfg fuel s1.
+  if halted s1 then s1 else commit_state cfg fuel s1.
 
 (* ReferenceSimulator::advanceEvent *)
 Definition advance_event (cfg : config) (fuel : nat) (s : state) : state :=
@@ -606,7 +617,7 @@ Definition advance_event (cfg : config) (fuel : nat) (s : state) : state :=
 
 (* ReferenceSimulator::advance(seconds) *)
 Fixpoint advance_loop (cfg : config) (fuel : nat) (target : Q) (s : state) : state :=
-  if s_err s then s else
+  if halted s then s else
   if clock_less (s_now s) target then
     match s_queue s with
     | [] => set_time target s
@@ -624,7 +635,7 @@ Fixpoint advance_loop (cfg : config) (fuel : nat) (target : Q) (s : state) : sta
 
 Definition trigger_event (t : Q) (k : clk) : event :=
   (* initial clock level for TriggerEvent::RISING is high, so the first event is the falling flank *)
-  mk_event ClockPinTrigger t 0 DURING k false 0 0 WkStable 0.
+  mk_event ClockPinTrigger t 0 DURING k false 0 0 WkStable (ghost0 0).
 
 Definition init_state (cfg : config) (procs : list script) (fiber : bool) (tb : list bool) : state :=
   mk_state 0 AFTER 0 [] [] [] [] [] 0 false []
@@ -646,7 +657,7 @@ Definition power_on (cfg : config) (fuel : nat) (procs : list script) (fiber : b
   let s3 := reevaluate s2 in
   let s4 := start_all cfg fuel fiber (length procs) s3 in
   let s5 := reevaluate s4 in          (* if (m_stateNeedsReevaluating) reevaluate(): idempotent when not needed *)
-  if s_err s5 then s5 else handle_time_step cfg fuel s5.
+  if halted s5 then s5 else handle_time_step cfg fuel s5.
 
 Record result := mk_result { res_log : list entry; res_ties : N; res_oof : bool }.
 
